@@ -93,10 +93,21 @@ def parseEv (j : Json) : Except String (Option TEv) := do
   | _ => throw s!"bad event kind {k}"
 
 /-- one visible event; `Except.error` carries the reason why the model cannot follow -/
-def visible (x : Ctx) (s : State) : TEv → Except String State
+def applyCancel (x : Ctx) (s : State) : Except String State :=
+  if s.ctx then pure s else
+  match apply x s .ctxCancel with
+  | some s' => pure s'
+  | none => throw "ctxCancel not enabled"
+
+/-- one visible event; `Except.error` carries the reason why the model cannot follow.
+    The harness logs "c" *before* it calls `cancel()`, so the logged position is a lower bound for the moment the
+    context is really cancelled: like `complete`, the model's `ctxCancel` is inserted as late as possible (`pc` = logged,
+    not yet applied) — when a callback reports the cancellation, when `Walk` returns the context error, at the end. -/
+def visible (x : Ctx) (sp : State × Bool) : TEv → Except String (State × Bool)
   | .start n => do
+    let (s, pc) := sp
     match apply x s (.wake n) with
-    | some s' => pure s'
+    | some s' => pure (s', pc)
     | none =>
       -- the release of n may still be pending in onComplete of its dependencies
       let s ← (x.cfg.deps n).foldlM (init := s) fun s d =>
@@ -106,34 +117,37 @@ def visible (x : Ctx) (s : State) : TEv → Except String State
           | none => throw s!"model: complete {d} not enabled"
         else pure s
       match apply x s (.wake n) with
-      | some s' => pure s'
+      | some s' => pure (s', pc)
       | none => throw s!"callback of node {n} entered but wake {n} is not enabled in the model (phase {phaseCode (s.phase n)}, ready {s.ready n})"
   | .fin n r => do
-    let s ← if r = .cancelled ∧ s.ctx = false then flushAll x s else pure s
+    let (s, pc) := sp
+    let (s, pc) ← if r = .cancelled ∧ s.ctx = false then
+        (if pc then do let s' ← applyCancel x s; pure (s', false) else do let s' ← flushAll x s; pure (s', pc))
+      else pure (s, pc)
     match apply x s (.cbReturn n r) with
-    | some s' => pure s'
+    | some s' => pure (s', pc)
     | none => throw s!"callback of node {n} returned but cbReturn is not enabled in the model (phase {phaseCode (s.phase n)}, ctx {s.ctx})"
-  | .cancel =>
-    if s.ctx then pure s else
-    match apply x s .ctxCancel with
-    | some s' => pure s'
-    | none => throw "ctxCancel not enabled"
+  | .cancel => pure (sp.1, true)
   | .ret err => do
+    let (s, pc) := sp
     if err then
+      let s ← if pc then applyCancel x s else pure s
       match apply x s (.walkReturn true) with
-      | some s' => if s'.retErr = some true then pure s' else throw "Walk returned an error but the model returns nil (fail-fast was triggered)"
+      | some s' => if s'.retErr = some true then pure (s', false) else throw "Walk returned an error but the model returns nil (fail-fast was triggered)"
       | none => throw "Walk returned an error but walkReturn(ctx) is not enabled in the model"
     else
-      let viaCtx (s : State) : Except String State :=
+      let viaCtx (s : State) : Except String (State × Bool) :=
         match apply x s (.walkReturn true) with
-        | some s' => if s'.retErr = some false then pure s' else throw "Walk returned nil but the model returns the context error"
+        | some s' => if s'.retErr = some false then pure (s', pc) else throw "Walk returned nil but the model returns the context error"
         | none => throw "walkReturn(ctx) not enabled"
       if s.ctx ∧ s.ff then viaCtx s else
       let s ← flushAll x s
       if s.ctx ∧ s.ff then viaCtx s else
       let s ← quiesce x s
       match apply x s (.walkReturn false) with
-      | some s' => pure s'
+      | some s' =>
+        if s'.retErr = some false then pure (s', pc)
+        else throw "Walk returned nil although the context was cancelled from outside and a callback had reported the cancellation (the model returns the context error)"
       | none => throw "Walk returned nil through the wait group but not every selected node is terminal in the model"
 
 def allEvents (x : Ctx) : List Ev :=
@@ -178,21 +192,26 @@ def replay : Handler := fun j => do
   let x ← mkCtx j
   let tr ← getArr j "trace"
   let mut s := normalize x (init x.cfg)
+  let mut pc := false
   let m0 := measure x.cfg s
   let mut idx : Nat := 0
   for ej in tr do
     match ← parseEv ej with
     | none => pure ()
     | some e =>
-      match visible x s e with
-      | .ok s' => s := s'
+      match visible x (s, pc) e with
+      | .ok (s', pc') =>
+        s := s'
+        pc := pc'
       | .error why =>
         return Json.mkObj [("ok", Json.bool false), ("at", toJson idx), ("why", Json.str why)]
     idx := idx + 1
   -- end of trace: outstanding hidden steps
   let sEnd := s
+  let pcEnd := pc
   let fin : Except String State := do
-    let s1 ← flushAll x sEnd
+    let s0 ← if pcEnd then applyCancel x sEnd else pure sEnd
+    let s1 ← flushAll x s0
     quiesce x s1
   match fin with
   | .error why => return Json.mkObj [("ok", Json.bool false), ("at", toJson idx), ("why", Json.str why)]
